@@ -1990,3 +1990,13 @@ def np_unique(E, args, node):
     E.st.ghost['unique'].append(dict(out=out, a=a, src=src, pos=pos, m=m))
     E.st.ghost.setdefault('facts', {})['unique#%d' % (cnt + 1)] = ax
     return out
+
+
+@libfn('bycycle.plts.burst.plot_burst_detect_summary', 'bycycle.plts.plot_burst_detect_summary')
+def byc_plot_summary_logged(E, args, node):
+    """the burst summary plot as seen from Bycycle.plot: NOT verified here (C20 decides it on the bounded side) - the call is
+    bound against its real signature and logged, so that the caller's contract can state what it hands over; assumed: it
+    returns None, raises nothing and changes none of its arguments"""
+    bound = bind_params(E, 'bycycle.plts.burst.plot_burst_detect_summary', args, node)
+    E.st.calls.append(('bycycle.plts.burst.plot_burst_detect_summary', bound, None))
+    return None
